@@ -130,6 +130,21 @@ class TaskSelf(Task, N):
         pass
 
 
+class TaskSelfG(Task, N):
+    """TaskSelf extended with a generated-path parameter (same type identifier): the path generator asks for the
+    identifier of the task while the graph is being sealed, before the output mark is set"""
+    __xpmid__ = "vpk.schema.taskself"
+    x: Param[int] = 0
+    c: Param[N]
+    lg: Annotated[Path, pathgenerator("log.txt")]
+
+    def task_outputs(self, dep):
+        return dep(self.c)
+
+    def execute(self):
+        pass
+
+
 class Pre(LightweightTask, N):
     v: Param[int] = 0
     c: Param[Optional[N]]
@@ -243,7 +258,7 @@ class S2(N):
     b: Param[str] = ""
 
 
-CLASSES = {c.__name__: c for c in [K1, K2, W1, W2, S2, GenV, EH, TaskSelf, Leaf, Inner, Bag, Req, TaskA, TaskOut, Pre, Init, NewL, OldL, NewT, OldT, V1, V2]}
+CLASSES = {c.__name__: c for c in [K1, K2, W1, W2, S2, GenV, EH, TaskSelf, TaskSelfG, Leaf, Inner, Bag, Req, TaskA, TaskOut, Pre, Init, NewL, OldL, NewT, OldT, V1, V2]}
 ENUMS = {"Color": Color, "Shape": Shape, "Level": Level, "Mode": Mode}
 
 
